@@ -116,6 +116,11 @@ def run(out_path, worker, nworkers, stride, only):
             want = set(json.load(fh))
         ms = [m for m in ms if m["idx"] in want]
     mine = [m for j, m in enumerate(ms[::stride]) if j % nworkers == worker]
+    passes_suite = set()
+    if os.environ.get("MUTCAMP_PASSES_SUITE"):
+        # mutants an earlier pass has already shown to pass the repository's suite
+        with open(os.environ["MUTCAMP_PASSES_SUITE"]) as fh:
+            passes_suite = set(json.load(fh))
     done = set()
     if os.path.exists(out_path):
         for l in open(out_path):
@@ -155,7 +160,10 @@ def run(out_path, worker, nworkers, stride, only):
                 if rc != 0:
                     rec["verdict"] = "does-not-build"
                 else:
-                    rc, o = sh("cargo test --offline --lib 2>&1 | tail -5", env, cwd=wt, timeout=900)
+                    if m["idx"] in passes_suite:
+                        rc, o = 0, "test result: ok (pass 1)"
+                    else:
+                        rc, o = sh("cargo test --offline --lib 2>&1 | tail -5", env, cwd=wt, timeout=900)
                     if "test result: ok" not in o:
                         rec["verdict"] = "killed-by-repo-suite"
                     else:
